@@ -63,7 +63,8 @@ def gen_cases(rng, tier):
   for i in range(n):
     m = gen_model(rng, i)
     route = "cli" if i % 20 == 3 else rng.choice(["inproc", "inproc", "main"])
-    cases.append({"model": m, "route": route, "tseed": rng.randrange(1 << 30), "raw": (i // 5 if i % 5 in (0, 4) and i % 3 != 1 else None), "emptied": (i // 4 if i % 4 == 2 else None)})
+    cases.append({"model": m, "route": route, "tseed": rng.randrange(1 << 30), "raw": (i // 5 if i % 5 in (0, 4) and i % 3 != 1 else None), "emptied": (i // 4 if i % 4 == 2 else None),
+                  "junk_unused": (i // 7 if i % 7 == 3 else None)})
   return cases
 
 
@@ -198,6 +199,19 @@ def run_case(case, ctx):
   ctx.cls("target:" + m["target"])
   items = emit.model_items(m)
   templ, subst, variables, unused, used = template(items, rng)
+  if case.get("junk_unused") is not None:
+    # unreferenced variables whose VALUE cannot be substituted (a left-over ${gone}, a stray '$') and whose NAME is an option
+    # the reader probes in sections that do not set it: nothing reads them, so nothing may trip over them
+    j_ = case["junk_unused"]
+    have = set(n_.lower() for n_, _ in variables + unused)
+    names_ = ["nrho", "drho", "cutoff_rho", "interpolation", "dr", "target", "nr", "cutoff", "drho"]
+    vals_ = ["${gone}", "5 $", "${Old-Section:key}", "$", "${gone} 2.0"]
+    for t_ in range(3):
+      nm_ = names_[(j_ + 3 * t_) % len(names_)]
+      if nm_.lower() not in have:
+        unused.append((nm_, vals_[(j_ + t_) % len(vals_)]))
+        have.add(nm_.lower())
+    ctx.cls("unused_variables_with_unsubstitutable_values")
   for s, its in templ:
     for k, v in its:
       if "${" in v:
